@@ -520,3 +520,55 @@ def dataset_spec(draw, convs=ALL_CONVS, max_vars=3, min_vars=1, max_extra=2,
                                   **(var_kwargs or {}))) if with_vars else []
     spec["mode"] = draw(st.sampled_from(list(modes)))
     return spec
+
+
+# ---- star-shaped (usually concave) stand-alone faces, for triangulation
+
+STAR_DIRECTIONS = [(4, 0), (4, 2), (3, 3), (2, 4), (0, 4), (-2, 4), (-3, 3), (-4, 2),
+                   (-4, 0), (-4, -2), (-3, -3), (-2, -4), (0, -4), (2, -4), (3, -3), (4, -2)]
+
+
+@st.composite
+def star_polygon(draw, cx, cy, unit):
+    """A simple polygon with 4-8 vertices at strictly increasing angles around (cx, cy) and
+    random radii: star-shaped by construction, usually concave, sometimes with collinear
+    vertices.  Random ring start and winding."""
+    positions = [draw(st.integers(0, 2))]
+    while True:
+        nxt = positions[-1] + draw(st.integers(2, 5))
+        if nxt - positions[0] > 15:
+            break
+        positions.append(nxt)
+    if len(positions) < 3 or 16 - (positions[-1] - positions[0]) > 7:
+        positions = [0, 4, 8, 12]
+    ring = []
+    for p in positions:
+        dx, dy = STAR_DIRECTIONS[p % 16]
+        r = draw(st.integers(1, 3))
+        ring.append([cx + unit * r * dx, cy + unit * r * dy])
+    s = draw(st.integers(0, len(ring) - 1))
+    ring = ring[s:] + ring[:s]
+    if draw(st.booleans()):
+        ring = ring[::-1]
+    return ring
+
+
+@st.composite
+def mesh_with_stars(draw, max_stars=4):
+    """An abstract mesh (as abstract_mesh) with additional stand-alone star-shaped faces."""
+    m = draw(abstract_mesh(max_j=2, max_i=3, allow_bowtie=draw(st.booleans())))
+    nodes = [list(p) for p in m["nodes"]]
+    faces = [list(f) for f in m["faces"]]
+    invalid = list(m["invalid"])
+    n_stars = draw(st.integers(1, max_stars))
+    unit = 2.0 ** -draw(st.sampled_from([2, 3, 3]))
+    for k in range(n_stars):
+        ring = draw(star_polygon(200.0 + 40 * k, -60.0, unit))
+        base = len(nodes)
+        nodes.extend(ring)
+        face = list(range(base, base + len(ring)))
+        faces.insert(draw(st.integers(0, len(faces))), face)
+    # inserting shifts the positions of the invalid faces: recompute by identity
+    bad = [m["faces"][f] for f in invalid]
+    invalid = [k for k, f in enumerate(faces) if any(f == b for b in bad)]
+    return {"nodes": nodes, "faces": faces, "invalid": invalid}
